@@ -575,9 +575,10 @@ for _k, _v in ROUND8.items():
 # Round 9 (review of the repairs, DESIGN 8.11): what each rule gained.
 ROUND9 = {
     "C03": "regress: a peer that stalls inside a well-formed header block until the read timeout is not answered 400.",
-    "C10": "regress: a 101 answer whose upgrade option is spelled four ways (never pooled).",
+    "C10": "regress: a 101 answer whose upgrade option is spelled five ways, one of them on a second Connection line (never pooled).",
+    "C14": "regress: a request whose body stream failed is given a new body through each of six setters: BodyE returns the new body.",
     "C11": "body-or-error also asks the URL helper (client.Get) after each exchange.",
-    "C15": "source tags spelled \"-\"; trailing fields moved into an untagged embedded struct; an unexported sibling whose name equals a json name ignoring case, with body keys in another case (json names that differ only in case are kept on one embedding level).",
+    "C15": "source tags spelled \"-\" (a field with a default whose tags are all \"-\" and none of them json is known finding D175); trailing fields moved into an untagged embedded struct; an unexported sibling whose name equals a json name ignoring case, with body keys in another case (json names that differ only in case are kept on one embedding level).",
     "C19": "unit finish-after-buffers-released: buffered mode, bodies of 100 B..70 KB and multipart bodies whose form the handler asks for; a whole exchange of another connection runs inside the scripted connection's first Write; the tracer's Finish must see the handled body.",
     "C20": "containers: nil pointers to slices and maps beside walked ones, a ***T member with a rule of its own; binder-nested: a struct as the key of a map inside a slice / a map.",
 }
